@@ -2,7 +2,8 @@
    (Model/Grouping.v, Proofs/GroupingP.v) and the C06 reconstruction model. *)
 From Coq Require Import QArith Ascii String Lia ZifyBool.
 From CKT Require Import Common.Base Model.Observables Model.Grouping Proofs.GroupingP
-                        Model.Reconstruct Proofs.ReconstructP Model.ReconstructGrouping.
+                        Model.Reconstruct Proofs.ReconstructP Model.ReconstructExt Proofs.ReconstructExtP
+                        Model.ReconstructGrouping.
 Close Scope Q_scope.
 Open Scope nat_scope.
 
@@ -142,8 +143,29 @@ Proof.
   split; [rewrite A; apply map_length|exact B].
 Qed.
 
-(* END TO END: masks / measured qubits / lookup produced by the grouping code (C11's model), keys
-   read by the executable parser: only the count and "every key is accepted" remain as hypotheses *)
+(* under C11's grouping contract no lookup list is empty (no 0/0 mean) *)
+Lemma collection_lookup_nonempty label subobs o cogs lk :
+  collection subobs o = Ok (cogs, lk) -> grouping_contract subobs o = true ->
+  forall locs, In locs (plookup (part_of_collection label subobs (cogs, lk))) -> locs <> [].
+Proof.
+  intros H K locs HL. cbn [part_of_collection plookup snd] in HL.
+  apply in_map_iff in HL as [p [<- Hp]].
+  destruct (collection_cover _ _ _ _ H K p Hp) as [l [F [NE _]]].
+  unfold lookup_get. rewrite F. exact NE.
+Qed.
+
+Lemma part_from_collection_shape nobs p : part_from_collection nobs p ->
+  length (plookup p) = nobs /\ locs_ok_ne p /\ forall x, In x (pphases p) -> x = 0.
+Proof.
+  intros (label & subobs & o & [cogs lk] & H & K & PH & L & ->).
+  destruct (collection_shape label subobs o cogs lk H PH) as [A B].
+  split; [rewrite A; exact L|]. split; [split; [exact B|apply (collection_lookup_nonempty label subobs o cogs lk H K)]|].
+  intros x Hx. cbn [part_of_collection pphases] in Hx. apply in_map_iff in Hx as [q [<- Hq]]. apply PH, Hq.
+Qed.
+
+(* END TO END: masks / measured qubits / lookup produced by the grouping code (C11's model, oracle answer
+   satisfying the grouping contract), keys read by the executable parser: only the count and "every key
+   is accepted" remain as hypotheses *)
 Lemma estimator_grouping nobs coeffs pds :
   (forall pd, In pd pds -> from_collection nobs pd) ->
   (forall pd, In pd pds -> data_len (snd pd) = length coeffs * length (pgroups (fst pd))) ->
@@ -152,8 +174,7 @@ Lemma estimator_grouping nobs coeffs pds :
           (Ok (map (estimator ref_den coeffs pds) (seq 0 nobs))).
 Proof.
   intros FC C K. apply estimator_parser; [exact C| |exact K].
-  intros pd Hpd. destruct (FC pd Hpd) as (label & subobs & o & [cogs lk] & H & PH & L & E).
-  rewrite E, <- L. apply (collection_shape label subobs o cogs lk H PH).
+  intros pd Hpd. destruct (part_from_collection_shape nobs (fst pd) (FC pd Hpd)) as [A [[B _] _]]. split; assumption.
 Qed.
 
 Lemma v1_v2_estimator_grouping nobs coeffs pds :
@@ -161,11 +182,34 @@ Lemma v1_v2_estimator_grouping nobs coeffs pds :
   (forall pd, In pd pds -> data_len (snd pd) = length coeffs * length (pgroups (fst pd))) ->
   (forall pd k, In pd pds -> In k (keys_of (snd pd)) -> outcome_to_int pyint0_ref k <> None) ->
   (forall pd, In pd pds -> obs_in_range (fst pd) (snd pd)) ->
-  reconstruct_parts pyint0_ref nobs coeffs (map (fun pd => (fst pd, pack (fst pd) (snd pd))) pds)
-  = reconstruct_parts pyint0_ref nobs coeffs pds /\
-  res_Qeq (reconstruct_parts pyint0_ref nobs coeffs (map (fun pd => (fst pd, pack (fst pd) (snd pd))) pds))
+  let twin := map (fun pd => merge_pd pyint0_ref (fst pd, pack (fst pd) (snd pd))) pds in
+  res_Qeq (reconstruct_parts pyint0_ref nobs coeffs twin) (reconstruct_parts pyint0_ref nobs coeffs pds) /\
+  (forall pd, In pd twin -> dict_shaped (snd pd) /\ exists q, snd pd = DV1 q) /\
+  res_Qeq (reconstruct_parts pyint0_ref nobs coeffs pds)
           (Ok (map (estimator ref_den coeffs pds) (seq 0 nobs))).
 Proof.
-  intros FC C K R. pose proof (v1_v2_full pyint0_ref nobs coeffs pds R) as E.
-  split; [exact E|]. rewrite E. apply estimator_grouping; assumption.
+  intros FC C K R twin.
+  assert (S : forall pd, In pd pds -> length (plookup (fst pd)) = nobs /\ locs_ok (fst pd)).
+  { intros pd Hpd. destruct (part_from_collection_shape nobs (fst pd) (FC pd Hpd)) as [A [[B _] _]]. split; assumption. }
+  destruct (v1_v2_dict pyint0_ref nobs coeffs pds C S K R) as [A B].
+  split; [exact A|]. split; [exact B|]. apply estimator_grouping; assumption.
+Qed.
+
+(* the PUBLIC function on partitions built by the grouping code, executable parser *)
+Lemma public_estimator_grouping m coeffs p0 ps :
+  (forall l, In l (map plabel (p0 :: ps)) <-> In l (map fst m)) ->
+  (forall p, In p (p0 :: ps) -> part_from_collection (length (plookup p0)) p) ->
+  (forall p d, In p (p0 :: ps) -> assoc m (plabel p) = Some d ->
+     data_len d = length coeffs * length (pgroups p) /\
+     forall k, In k (keys_of d) -> outcome_to_int pyint0_ref k <> None) ->
+  exists pds, map fst pds = p0 :: ps /\
+    (forall pd, In pd pds -> assoc m (plabel (fst pd)) = Some (snd pd)) /\
+    res_Qeq (reconstruct pyint0_ref (RMap m) coeffs (OMap (p0 :: ps)))
+            (Ok (map (estimator ref_den coeffs pds) (seq 0 (length (plookup p0))))).
+Proof.
+  intros K FC DA. apply public_estimator; [exact K| | |].
+  - intros p x Hp Hx. destruct (part_from_collection_shape _ p (FC p Hp)) as [_ [_ PH]]. apply PH, Hx.
+  - intros p Hp. destruct (part_from_collection_shape _ p (FC p Hp)) as [A [[B _] _]]. split; assumption.
+  - intros p d Hp Hd. destruct (DA p d Hp Hd) as [A B]. split; [exact A|].
+    intros k Hk. apply ref_den_ok, B, Hk.
 Qed.
